@@ -386,10 +386,58 @@ def recovery_check(ctx, su, history, label):
         ctx.violate(f"store recovered after {inp['history']} differs from an uninterrupted run in {bad}", inp, "identical tree", bad)
 
 
+def many_partitions_case(ctx, work):
+    """more than ten partitions (two-digit partition numbers): partitions re-run, one of them after a kill, in an order in
+    which low numbers follow high ones; the finalised store must equal the uninterrupted one"""
+    from bio2zarr import vcf2zarr
+    rng = ctx.rng
+    for _try in range(6):
+        spec = vcfgen.simple_file(rng, nrec=70, ncontig=14, samples=0, unused_contigs=False, span=50_000)
+        vcf = vcfgen.materialise(spec, pathlib.Path(work) / "many", "vcf.gz+tbi", block_size=200)
+        ref, icf = pathlib.Path(work) / "many_ref.icf", pathlib.Path(work) / "many.icf"
+        shutil.rmtree(ref, ignore_errors=True)
+        vcf2zarr.explode(ref, [vcf], worker_processes=0)
+        shutil.rmtree(icf, ignore_errors=True)
+        n = vcf2zarr.explode_init(icf, [vcf], target_num_partitions=14, worker_processes=0).num_partitions
+        if n >= 12:
+            break
+    else:
+        return
+    ref_store = vcf2zarr.IntermediateColumnarFormat(ref)
+    want = {name: [repr(v) for v in f.values] for name, f in ref_store.fields.items()}
+    order = list(range(n))
+    rng.shuffle(order)
+    reruns = [1, rng.choice([0, 2]), rng.randrange(n)]
+    killed = rng.choice([1, 2])
+    inp = {"vcf_spec": spec, "partitions": n, "first_order": order, "reruns": reruns, "rerun_killed_first": killed}
+    ctx.case(("many partitions", n, tuple(order), tuple(reruns), killed), True)
+    ctx.count("many_partitions_cases")
+    try:
+        for j in order:
+            vcf2zarr.explode_partition(icf, j)
+        probe = fstrace.traced(icf, lambda: vcf2zarr.explode_partition(icf, killed))[0]
+        fstrace.run_killed(icf, lambda: vcf2zarr.explode_partition(icf, killed), max(1, len(probe) // 2))
+        for j in [killed] + reruns:
+            vcf2zarr.explode_partition(icf, j)
+        vcf2zarr.explode_finalise(icf)
+        got_store = vcf2zarr.IntermediateColumnarFormat(icf)
+        got = {name: [repr(v) for v in f.values] for name, f in got_store.fields.items()}
+    except Exception as e:  # noqa: BLE001
+        ctx.violate(f"{n} partitions, re-runs {reruns} (partition {killed} killed once before): {type(e).__name__}: {str(e)[:200]}", inp,
+                    "the uninterrupted store", repr(e)[:200])
+        return
+    if got != want:
+        bad = sorted(k for k in set(got) | set(want) if got.get(k) != want.get(k))[:4]
+        ctx.violate(f"{n} partitions, re-runs {reruns}: the finalised store differs from an uninterrupted run in fields {bad}", inp, "identical", bad)
+    shutil.rmtree(ref, ignore_errors=True)
+    shutil.rmtree(icf, ignore_errors=True)
+
+
 def run(ctx):
     work = common.scratch_dir("c05-")
     rng = ctx.rng
     try:
+        many_partitions_case(ctx, work)
         nsetups = 4 if ctx.thorough else 2
         for si in range(nsetups):
             su = Setup(ctx, work, rng.choice([1, 2, 3, 4]), si)
